@@ -44,6 +44,25 @@
 (* not called .dynstr and a decoy section called .dynstr exists) and         *)
 (* Stripped (e_shoff = e_shnum = e_shstrndx = 0, program headers only).      *)
 (*                                                                         *)
+(* Mode "adj": PT_LOAD layouts x pointer positions at segment boundaries.    *)
+(* Three PT_LOADs A, B, C: A maps the file from 0 up to table cut-1, B maps  *)
+(* the file from table `cut` on DIRECTLY BEHIND A IN MEMORY (B.p_vaddr =     *)
+(* A.p_vaddr + A.p_filesz) though not behind it in the file, C maps table    *)
+(* cut-1 (the file gap between A and B) far away; p_align = 1 ("no alignment *)
+(* required").  Every table in turn (cut = 2 .. .dynamic, both table orders) *)
+(* starts at the first byte of B, so the dynamic pointer to it equals the    *)
+(* end address of A: by ch.5 "Program Header" A holds the addresses          *)
+(* [p_vaddr, p_vaddr + p_filesz) - half open - and the pointer belongs to B  *)
+(* alone (PtrInsideSegment checks "exactly one PT_LOAD" on every object).    *)
+(* Program header order A,B,C ("adj") and C,B,A ("adjrev").                  *)
+(*                                                                         *)
+(* Mode "rel": relocation tables named by the dynamic array - every subset   *)
+(* of {DT_REL, DT_RELA, DT_RELR} x DT_JMPREL absent / with DT_PLTREL =       *)
+(* DT_REL / = DT_RELA.  The reader (ReadRelocs) takes address and size from  *)
+(* the tags (through the PT_LOAD mapping, in every view) and the flavour of  *)
+(* the DT_JMPREL table from DT_PLTREL alone (DynScan.tla quotes the gABI);   *)
+(* RelocsAgree: every view reads back exactly the abstract tables.           *)
+(*                                                                         *)
 (* Reader machine (one action per loop iteration / step a reader needs):    *)
 (* StartRead(view), ScanTag (entry n of the array, until DT_NULL),           *)
 (* SelectStrtab (section view: sh_link; segment view: DT_STRTAB translated   *)
@@ -60,7 +79,11 @@
 (* stops in the state DynScan!Scan - the closed form used for trace           *)
 (* validation - gives), SameData (the two encodings differ in the ELF header  *)
 (* and the section header table only), ChunksOK, PlacementOK (the writer's    *)
-(* offsets are the ones Elf.tla's layout gives the sections).                 *)
+(* offsets are the ones Elf.tla's layout gives the sections), RelocsAgree      *)
+(* (every view reads back the abstract relocation tables; the DT_JMPREL table *)
+(* in DT_PLTREL's flavour), AdjBoundary (mode adj really puts a dynamic       *)
+(* pointer on the first byte of a PT_LOAD that starts at the end address of   *)
+(* another one while lying elsewhere in the file).                            *)
 (*                                                                         *)
 (* Not asserted (deliberately outside the property or not fixed by it):      *)
 (*  - the symbol count when no hash table determines it (no hash tags, or a  *)
@@ -69,8 +92,10 @@
 (*  - names of codes the vendored registry / the Solaris table below do not  *)
 (*    define (vocabulary gating as everywhere); DT_SUNW_FILTER's string;     *)
 (*  - Solaris tags on a MIPS / AArch64 machine (no such platform);           *)
-(*  - relocation tables named by dynamic tags: Reloc.tla mode "dyn" (C08);   *)
-(*    here only the smoke expectation "no relocation tags -> no tables";     *)
+(*  - the decoding of relocation entries in depth (machine-specific r_info,   *)
+(*    RELR bitmaps, application): Reloc.tla (C08); here the tables the array  *)
+(*    names are read back entry by entry under the generic r_info split, and  *)
+(*    RELR tables consist of address entries only;                            *)
 (*  - arrays that are not terminated inside PT_DYNAMIC / .dynamic, absent    *)
 (*    DT_STRTAB / DT_SYMTAB, overlapping PT_LOAD address ranges (ill-formed);*)
 (*  - how a string that is not UTF-8 is represented (the driver asserts "a   *)
@@ -86,7 +111,7 @@
 (***************************************************************************)
 EXTENDS Elf, HashWalk, DynScan, Json, CSV, IOUtils
 
-CONSTANTS Modes,        \* subset of {"tags", "tail", "layout", "syms", "sweep"}
+CONSTANTS Modes,        \* subset of {"tags", "tail", "layout", "syms", "sweep", "adj", "rel"}
           FreeIds,      \* indices into Alpha the writer may append (mode "tags")
           MaxFree,      \* free tags per object (mode "tags")
           SymIds,       \* name ids of symbols (mode "syms")
@@ -227,14 +252,21 @@ Cfs == << Cf(64, TRUE, 62, 0),       \* 1 x86-64
           Cf(32, FALSE, 20, 0) >>    \* 8 PowerPC
 CfOf(cl) == Cf(cl[1], cl[2], IF cl[1] = 64 THEN 62 ELSE 3, 0)
 Layouts == {"one", "two", "bss", "twobss", "high"}
+AdjLayouts == {"adj", "adjrev"}                          \* mode "adj" only
 Variants == {"match", "matchdecoy", "split"}
 IsSplit(x) == x.variant = "split"
 HasDecoy(x) == x.variant \in {"split", "matchdecoy"}
 MPos == {"front", "back", "mid"}
 HKinds == {"none", "sysv", "gnu", "both"}
+\* rels: which relocation tables the array names; plt: DT_JMPREL absent, or present with DT_PLTREL = DT_REL / DT_RELA
+Rels(rel, rela, relr, plt) == [rel |-> rel, rela |-> rela, relr |-> relr, plt |-> plt]
+NoRels == Rels(FALSE, FALSE, FALSE, "none")
+\* cut (layouts adj / adjrev): the table that starts the PT_LOAD placed directly behind the first one in memory;
+\* symlast: the symbol table is the last of the tables (as under the zero-fill layouts)
 Obj(mode, cf, layout, variant, mpos, fid, free, tid, syms, hk, nb, so, ld) ==
   [fid |-> fid, tid |-> tid, tail |-> Tails[tid], mode |-> mode, cls |-> cf.cls, le |-> cf.le, machine |-> cf.machine, osabi |-> cf.osabi, layout |-> layout, variant |-> variant,
-   mpos |-> mpos, free |-> free, syms |-> syms, hk |-> hk, nb |-> nb, so |-> so, ld |-> ld]
+   mpos |-> mpos, free |-> free, syms |-> syms, hk |-> hk, nb |-> nb, so |-> so, ld |-> ld,
+   cut |-> 2, symlast |-> FALSE, rels |-> NoRels]
 TwoSyms(c) == <<LSym(6, 1, c), LSym(7, 2, c)>>
 
 \* sweeps: one object per group of GroupLen registry codes, under a machine / OS ABI
@@ -262,7 +294,8 @@ SweepTags(s, g) == LET cs == SweepSpecs[s].codes
 
 (* ------------------------------- writer -------------------------------- *)
 NoMem == [none |-> TRUE]
-Idle == [view |-> "idle", pc |-> "idle", sc |-> ScanStart, stroff |-> -1, strs |-> <<>>, cnt |-> [det |-> FALSE, n |-> 0], syms |-> <<>>]
+Idle == [view |-> "idle", pc |-> "idle", sc |-> ScanStart, stroff |-> -1, strs |-> <<>>, cnt |-> [det |-> FALSE, n |-> 0], syms |-> <<>>,
+         rels |-> <<>>]
 
 Init ==
   /\ phase = "build" /\ mem = NoMem /\ rd = Idle
@@ -277,6 +310,13 @@ Init ==
                                /\ (ld => hk \in {"gnu", "both"})
                                /\ (l = "twobss" => nb = 1)
                                /\ o = Obj(mode, CfOf(cl), l, IF nb = 1 THEN "split" ELSE IF ld THEN "matchdecoy" ELSE "match", "front", <<1>>, <<Alpha[1]>>, 1, <<>>, hk, nb, 0, ld)
+         [] mode = "adj" -> \E cl \in ClsLe, l \in AdjLayouts, v \in {"match", "split"}, sl \in BOOLEAN, cut \in 2..5 :
+                               o = [Obj(mode, CfOf(cl), l, v, "mid", <<3, 14>>, <<Alpha[3], Alpha[14]>>, 2, TwoSyms(cl[1]), "both", 2, 1, FALSE)
+                                    EXCEPT !.cut = cut, !.symlast = sl]
+         [] mode = "rel" -> \E cl \in ClsLe, v \in {"match", "split"}, rel \in BOOLEAN, rela \in BOOLEAN, relr \in BOOLEAN,
+                               plt \in {"none", "rel", "rela"} :
+                               o = [Obj(mode, CfOf(cl), "two", v, "front", <<1>>, <<Alpha[1]>>, 1, TwoSyms(cl[1]), "sysv", 1, 1, FALSE)
+                                    EXCEPT !.rels = Rels(rel, rela, relr, plt)]
          [] mode = "sweep" -> \E s \in SweepIds : \E g \in 1..NGroups(s) :
                                o = Obj(mode, SweepSpecs[s].cf, "one", CASE g % 3 = 0 -> "split" [] g % 3 = 1 -> "match" [] OTHER -> "matchdecoy", "front", <<s, g>>, SweepTags(s, g), 1,
                                        <<LSym(6, 1, SweepSpecs[s].cf.cls)>>, "sysv", 1, 1, FALSE)
@@ -298,15 +338,42 @@ Ws(x) == x.cls \div 8
 \* The user sections in file order (the name table is the last section).  Usually the symbol table comes first and the string
 \* table follows it; under the layouts with zero-fill memory the symbol table comes last of the tables, directly before
 \* .dynamic, so that no dynamic pointer marks its end (the "nearest higher pointer" guess of its size is wrong there).
-SymLast(x) == x.layout \in {"bss", "twobss"}
+SymLast(x) == x.layout \in {"bss", "twobss"} \/ x.symlast
+RelKinds(x) == (IF x.rels.rel THEN <<"rel">> ELSE <<>>) \o (IF x.rels.rela THEN <<"rela">> ELSE <<>>)
+               \o (IF x.rels.relr THEN <<"relr">> ELSE <<>>) \o (IF x.rels.plt # "none" THEN <<"plt">> ELSE <<>>)
 Order(x) == (IF SymLast(x) THEN <<"str">> ELSE <<"sym", "str">>)
             \o (IF HasV(x) THEN <<"hash">> ELSE <<>>) \o (IF HasG(x) THEN <<"gnu">> ELSE <<>>)
-            \o (IF SymLast(x) THEN <<"sym">> ELSE <<>>) \o <<"dyn">>
+            \o (IF SymLast(x) THEN <<"sym">> ELSE <<>>) \o RelKinds(x) \o <<"dyn">>
             \o (IF IsSplit(x) THEN <<"copy">> ELSE <<>>) \o (IF HasDecoy(x) THEN <<"decoy">> ELSE <<>>)
 PosOf(ord, kind) == LET hits == {k \in 1..Len(ord) : ord[k] = kind} IN IF hits = {} THEN -1 ELSE Min(hits)
-Ix(x) == LET ord == Order(x) IN [kind \in {"sym", "str", "hash", "gnu", "dyn", "copy", "decoy"} |-> PosOf(ord, kind)]
+Ix(x) == LET ord == Order(x) IN [kind \in {"sym", "str", "hash", "gnu", "dyn", "copy", "decoy", "rel", "rela", "relr", "plt"} |-> PosOf(ord, kind)]
+\* abstract relocation entries (r_offset: a field value; symbol index, type code; r_addend: a field value, signed)
+RelE(off, sym, type, add) == [off |-> off, sym |-> sym, type |-> type, add |-> add]
+RelPool(c) == << RelE(N(8200), 1, 7, N(0)), RelE(BigV(c), 2, 7, N(0 - 8)), RelE(N(12304), 0, 8, N(4660)), RelE(N(8208), 3, 7, N(0)) >>
+RelEntries(x, kind) == LET P == RelPool(x.cls) IN
+  CASE kind = "rel" -> <<P[3], P[1]>> [] kind = "rela" -> <<P[2], P[3]>> [] kind = "plt" -> <<P[1], P[2], P[4]>>
+RelrWords(x) == <<N(16640), N(16656)>>                     \* two address entries (even values)
+IsRela(x, kind) == kind = "rela" \/ (kind = "plt" /\ x.rels.plt = "rela")
+\* ELF32_R_INFO(s, t) = (s << 8) + (unsigned char) t; ELF64_R_INFO(s, t) = (s << 32) + t
+InfoDigits(e, c) == IF c = 32 THEN <<e.type>> \o LEn(e.sym, 3) ELSE LEn(e.type, 4) \o LEn(e.sym, 4)
+EncRel(e, c, le, rela) == LET rec == [r_offset |-> e.off, r_info |-> W(InfoDigits(e, c)), r_addend |-> e.add] IN
+                          Ser(IF rela THEN RelaF ELSE RelF, rec, c, le)
+RelBytes(x, kind) ==
+  IF kind = "relr" THEN LET ws == RelrWords(x) IN Flat([j \in 1..Len(ws) |-> Fix(ws[j], x.cls \div 8, x.le)])
+  ELSE LET es == RelEntries(x, kind) IN Flat([j \in 1..Len(es) |-> EncRel(es[j], x.cls, x.le, IsRela(x, kind))])
+\* the tags that name the tables: the PLT block first, then RELA, REL, RELR (a reader must not depend on the order)
+RelTags(x) ==
+  LET r == x.rels
+      L(kind) == N(Len(RelBytes(x, kind)))
+      V(c, v) == T("val", C1(c), FALSE, v)
+      P(c, kind) == T("tab", C1(c), FALSE, kind) IN
+  (IF r.plt # "none" THEN <<V(2, L("plt")), V(20, N(IF r.plt = "rela" THEN 7 ELSE 17)), P(23, "plt")>> ELSE <<>>)
+  \o (IF r.rela THEN <<P(7, "rela"), V(8, L("rela")), V(9, N(RelEntSize(x.cls, TRUE)))>> ELSE <<>>)
+  \o (IF r.rel THEN <<V(19, N(RelEntSize(x.cls, FALSE))), V(18, L("rel")), P(17, "rel")>> ELSE <<>>)
+  \o (IF r.relr THEN <<P(36, "relr"), V(35, L("relr")), V(37, N(x.cls \div 8))>> ELSE <<>>)
 Mand(x) == (IF HasV(x) THEN <<TabTag("hash")>> ELSE <<>>) \o (IF HasG(x) THEN <<TabTag("gnuhash")>> ELSE <<>>)
            \o <<TabTag("strtab"), TabTag("symtab"), T("val", C1(10), FALSE, N(Len(DynStr))), T("val", C1(11), FALSE, N(SizeOf(SymF(x.cls), x.cls)))>>
+           \o RelTags(x)
 Body(x) == CASE x.mpos = "front" -> Mand(x) \o x.free
              [] x.mpos = "back" -> x.free \o Mand(x)
              [] x.mpos = "mid" -> LET h == Len(x.free) \div 2 IN SubSeq(x.free, 1, h) \o Mand(x) \o SubSeq(x.free, h + 1, Len(x.free))
@@ -328,9 +395,19 @@ Base(x) == IF x.layout = "high" THEN (IF x.cls = 32 THEN <<0, 0, 0, 192>> ELSE <
 \* (TLCEval: explicit tuples - TLC re-evaluates a lazily built digit string at every use of one of its digits)
 Plus(d, n) == TLCEval(DAdd(d, LEn(n, Len(d))))
 \* PT_LOAD entries [va, off, fsz, msz] for a data region ending at file offset `dend`, split at file offset `s`
-Loads(x, s, dend) ==
-  LET b == Base(x) IN
-  CASE x.layout \in {"one", "high"} -> << [va |-> b, off |-> 0, fsz |-> dend, msz |-> dend] >>
+Loads(x, offs, dend) ==
+  LET b == Base(x)
+      s == offs[2]
+      \* layouts adj / adjrev: A = file [0, table cut-1) at the base; B = file [table cut, end) directly behind A in memory;
+      \* C = file [table cut-1, table cut) far away.  p_align 1: "values 0 and 1 mean no alignment is required"
+      p == offs[x.cut - 1]
+      q == offs[x.cut]
+      A == [va |-> b, off |-> 0, fsz |-> p, msz |-> p, al |-> 1]
+      B == [va |-> Plus(b, p), off |-> q, fsz |-> dend - q, msz |-> dend - q, al |-> 1]
+      C == [va |-> Plus(b, 4194304 + p), off |-> p, fsz |-> q - p, msz |-> q - p, al |-> 1] IN
+  CASE x.layout = "adj" -> <<A, B, C>>
+    [] x.layout = "adjrev" -> <<C, B, A>>
+    [] x.layout \in {"one", "high"} -> << [va |-> b, off |-> 0, fsz |-> dend, msz |-> dend] >>
     [] x.layout = "bss" -> << [va |-> b, off |-> 0, fsz |-> dend, msz |-> dend + 4096] >>
     [] x.layout = "two" -> << [va |-> b, off |-> 0, fsz |-> s, msz |-> s], [va |-> Plus(b, 2097152 + s), off |-> s, fsz |-> dend - s, msz |-> dend - s] >>
     [] x.layout = "twobss" -> << [va |-> b, off |-> 0, fsz |-> s, msz |-> s + 2048],
@@ -345,6 +422,11 @@ DotHash == <<46, 104, 97, 115, 104>>
 DotGnuHash == <<46, 103, 110, 117, 46, 104, 97, 115, 104>>
 DotDynamic == <<46, 100, 121, 110, 97, 109, 105, 99>>
 DotData == <<46, 100, 97, 116, 97>>
+DotRel == <<46, 114, 101, 108>>
+DotRela == <<46, 114, 101, 108, 97>>
+DotDyn == <<46, 100, 121, 110>>
+DotPlt == <<46, 112, 108, 116>>
+DotRelrDyn == <<46, 114, 101, 108, 114, 46, 100, 121, 110>>
 Sht(name) == W(TLCEval(DTrunc(KindCodes[name], 4)))
 
 \* d_tag / d_un as field values, given the addresses P = [strtab, symtab, hash, gnuhash, decoy, bss]
@@ -366,7 +448,7 @@ EncTags(x, P, ts) == CatAll([i \in 1..Len(ts) |-> Fix(W(TagDigits(x, ts[i])), Ws
 \* addresses.  Encode: the image.  (Several actions rather than one: what an action stores in `mem` is a concrete value, whereas TLC re-evaluates a LET
 \* definition at every use inside a function constructor.)
 SecCount(x) == Len(Order(x))
-NLoad(x) == IF x.layout \in {"two", "twobss"} THEN 2 ELSE 1
+NLoad(x) == IF x.layout \in AdjLayouts THEN 3 ELSE IF x.layout \in {"two", "twobss"} THEN 2 ELSE 1
 Build(so) ==
   /\ phase = "build"
   /\ so >= 1 /\ so <= Len(o.syms) + 1
@@ -379,6 +461,7 @@ Build(so) ==
      /\ mem' = [tab |-> t, n |-> Len(t), symb |-> EncSyms(t, x.cls, x.le),
                 hb |-> IF HasV(x) THEN EncSysV(BuildSysV(t, x.nb, x.so), x.le) ELSE <<>>,
                 gb |-> IF HasG(x) THEN GnuBytes(x, t) ELSE <<>>,
+                rb |-> [kind \in {"rel", "rela", "relr", "plt"} |-> IF PosOf(RelKinds(x), kind) # -1 THEN RelBytes(x, kind) ELSE <<>>],
                 dynlen |-> Len(AllTags(x)) * DynEnt(x.cls)]
   /\ phase' = "built"
   /\ UNCHANGED rd
@@ -387,7 +470,8 @@ PlaceTables ==
   /\ LET x == o   ix == Ix(o)   w == Ws(o)
          ord == Order(o)
          lens == [k \in 1..Len(ord) |-> CASE ord[k] = "sym" -> Len(mem.symb) [] ord[k] = "str" -> Len(DynStr) [] ord[k] = "hash" -> Len(mem.hb)
-                                           [] ord[k] = "gnu" -> Len(mem.gb) [] ord[k] \in {"dyn", "copy"} -> mem.dynlen [] ord[k] = "decoy" -> Len(Decoy)]
+                                           [] ord[k] = "gnu" -> Len(mem.gb) [] ord[k] \in {"dyn", "copy"} -> mem.dynlen [] ord[k] = "decoy" -> Len(Decoy)
+                                           [] OTHER -> Len(mem.rb[ord[k]])]
          \* where the data region starts (Elf.tla: after the ELF header and the program header table) and ends (after .shstrtab)
          hdr == [Im0 EXCEPT !.cls = x.cls, !.segs = [j \in 1..(NLoad(x) + 1) |-> Z]]
          d0 == DataOff(hdr)
@@ -407,13 +491,20 @@ SecOf(x, m, ad, dyn, kind) ==
     [] kind = "dyn" -> Sec(DotDynamic, Sht("SHT_DYNAMIC"), N(3), ad[ix.dyn], dyn, N(m.dynlen), N(ix.str), Z, N(w), N(DynEnt(c)))
     [] kind = "copy" -> Sec(DotData, Sht("SHT_PROGBITS"), N(3), ad[ix.copy], dyn, N(m.dynlen), Z, Z, N(w), Z)
     [] kind = "decoy" -> Sec(DotDynstr, Sht("SHT_STRTAB"), N(2), ad[ix.decoy], Decoy, N(Len(Decoy)), Z, Z, N(1), Z)
+    [] kind = "relr" -> Sec(DotRelrDyn, Sht("SHT_RELR"), N(2), ad[ix.relr], m.rb.relr, N(Len(m.rb.relr)), Z, Z, N(w), N(w))
+    [] kind \in {"rel", "rela", "plt"} ->
+         LET ra == IsRela(x, kind) IN
+         Sec((IF ra THEN DotRela ELSE DotRel) \o (IF kind = "plt" THEN DotPlt ELSE DotDyn), Sht(IF ra THEN "SHT_RELA" ELSE "SHT_REL"), N(2),
+             ad[ix[kind]], m.rb[kind], N(Len(m.rb[kind])), N(ix.sym), Z, N(w), N(RelEntSize(c, ra)))
 Sections(x, m, ad, dyn) == LET ord == Order(x) IN [k \in 1..Len(ord) |-> SecOf(x, m, ad, dyn, ord[k])]
 \* the length of .shstrtab (Elf.tla writes it after the user sections)
-ShStrLen(x) == Len(StrTab([Im0 EXCEPT !.secs = Sections(x, [symb |-> <<>>, hb |-> <<>>, gb |-> <<>>, dynlen |-> 0], [k \in 1..SecCount(x) |-> Z], <<>>)]))
+ShStrLen(x) == Len(StrTab([Im0 EXCEPT !.secs = Sections(x, [symb |-> <<>>, hb |-> <<>>, gb |-> <<>>, dynlen |-> 0,
+                                                                  rb |-> [kind \in {"rel", "rela", "relr", "plt"} |-> <<>>]],
+                                                             [k \in 1..SecCount(x) |-> Z], <<>>)]))
 Segments ==
   /\ phase = "placed"
   /\ LET dend == mem.d0 + mem.dsum + ShStrLen(o)
-         loads == Loads(o, mem.offs[2], dend) IN               \* two segments: the first table alone in the first one
+         loads == Loads(o, mem.offs, dend) IN                  \* two segments: the first table alone in the first one
      mem' = [f \in DOMAIN mem \cup {"dend", "loads"} |-> CASE f = "dend" -> dend [] f = "loads" -> loads [] OTHER -> mem[f]]
   /\ phase' = "loaded"
   /\ UNCHANGED <<o, rd>>
@@ -424,7 +515,10 @@ Addresses ==
          ad == [k \in 1..Len(mem.offs) |-> AddrOf(mem.loads, mem.offs[k])]
          P == [strtab |-> ad[ix.str], symtab |-> ad[ix.sym], hash |-> IF HasV(x) THEN ad[ix.hash] ELSE DZero(w),
                gnuhash |-> IF HasG(x) THEN ad[ix.gnu] ELSE DZero(w), decoy |-> IF HasDecoy(x) THEN ad[ix.decoy] ELSE Plus(ad[ix.str], 2),
-               bss |-> Plus(loads[1].va, loads[1].fsz + 16)]
+               rel |-> IF x.rels.rel THEN ad[ix.rel] ELSE DZero(w), rela |-> IF x.rels.rela THEN ad[ix.rela] ELSE DZero(w),
+               relr |-> IF x.rels.relr THEN ad[ix.relr] ELSE DZero(w), plt |-> IF x.rels.plt # "none" THEN ad[ix.plt] ELSE DZero(w),
+               \* an address without file image: in the zero-fill tail of the first segment; beyond every segment under adj / adjrev
+               bss |-> IF x.layout \in AdjLayouts THEN Plus(Base(x), 8388608) ELSE Plus(loads[1].va, loads[1].fsz + 16)]
          pd == IF IsSplit(x) THEN ix.copy ELSE ix.dyn IN
      mem' = [f \in DOMAIN mem \cup {"ad", "P", "pdyn"} |->
                CASE f = "ad" -> ad [] f = "P" -> P
@@ -443,14 +537,15 @@ Encode ==
          dyn == mem.dyn
          nload == Len(mem.loads)
          segs == [j \in 1..nload |-> Seg(N(1), N(IF j = 1 THEN 5 ELSE 6), N(mem.loads[j].off), W(mem.loads[j].va), W(mem.loads[j].va),
-                                          N(mem.loads[j].fsz), N(mem.loads[j].msz), N(4096))]
+                                          N(mem.loads[j].fsz), N(mem.loads[j].msz), N(IF "al" \in DOMAIN mem.loads[j] THEN mem.loads[j].al ELSE 4096))]
                  \o << Seg(N(2), N(6), N(mem.pdyn.off), W(mem.ad[mem.pdyn.sec]), W(mem.ad[mem.pdyn.sec]), N(mem.dynlen), N(mem.dynlen), N(w)) >>
          wads == [k \in 1..Len(mem.ad) |-> W(mem.ad[k])]
          im == [Im0 EXCEPT !.cls = x.cls, !.le = x.le, !.machine = x.machine, !.osabi = x.osabi, !.etype = N(3),
                            !.secs = Sections(o, mem, wads, dyn), !.segs = segs]
          ord == Order(o)
          data == Flat([k \in 1..Len(ord) |-> CASE ord[k] = "sym" -> mem.symb [] ord[k] = "str" -> DynStr [] ord[k] = "hash" -> mem.hb
-                                                [] ord[k] = "gnu" -> mem.gb [] ord[k] \in {"dyn", "copy"} -> dyn [] ord[k] = "decoy" -> Decoy]) IN
+                                                [] ord[k] = "gnu" -> mem.gb [] ord[k] \in {"dyn", "copy"} -> dyn [] ord[k] = "decoy" -> Decoy
+                                                [] OTHER -> mem.rb[ord[k]]]) IN
      mem' = [f \in DOMAIN mem \cup {"im", "data"} |-> CASE f = "im" -> im [] f = "data" -> data [] OTHER -> mem[f]]
   /\ phase' = "done"
   /\ UNCHANGED <<o, rd>>
@@ -508,7 +603,19 @@ SymsOf(v, out, stroff, cnt) ==
   LET so == IF v = "sec" THEN mem.offs[Ix(o).sym] ELSE OffOfTag(out, DtSymtab)
       n == IF cnt.det THEN cnt.n ELSE mem.n IN
   IF so < 0 THEN <<>> ELSE [i \in 1..n |-> SymAt(so, stroff, i - 1)]
-ReadSymbols == At("syms") /\ rd' = [rd EXCEPT !.syms = SymsOf(rd.view, rd.sc.out, rd.stroff, rd.cnt), !.pc = "done"] /\ Keep
+ReadSymbols == At("syms") /\ rd' = [rd EXCEPT !.syms = SymsOf(rd.view, rd.sc.out, rd.stroff, rd.cnt), !.pc = "relocs"] /\ Keep
+\* the relocation tables the array names, in every view: address -> file offset through the PT_LOAD mapping, the size from the
+\* size tag, the flavour of REL / RELA by the tag, of the DT_JMPREL table by DT_PLTREL.  Rows <<name, is RELA, entries>>.
+RelocsOf(out) ==
+  LET Has(c) == FirstOf(out, c) # 0
+      Size(c) == IF Has(c) THEN DSmall(ValOf(out, c)) ELSE -1
+      Base0(c) == LET f == OffOfTag(out, c) IN IF f < 0 THEN -1 ELSE Rel(f)
+      Tab(name, pc, sc, rela) == <<name, rela, RelTableAt(mem.data, Base0(pc), Size(sc), o.cls, o.le, rela)>> IN
+  (IF Has(DtRel) THEN <<Tab("REL", DtRel, DtRelsz, FALSE)>> ELSE <<>>)
+  \o (IF Has(DtRela) THEN <<Tab("RELA", DtRela, DtRelasz, TRUE)>> ELSE <<>>)
+  \o (IF Has(DtRelr) THEN << <<"RELR", FALSE, RelrTableAt(mem.data, Base0(DtRelr), Size(DtRelrsz), o.cls, o.le)>> >> ELSE <<>>)
+  \o (IF Has(DtJmprel) THEN <<Tab("JMPREL", DtJmprel, DtPltrelsz, DSig(ValOf(out, DtPltrel)) = DtRela)>> ELSE <<>>)
+ReadRelocs == At("relocs") /\ rd' = [rd EXCEPT !.rels = RelocsOf(rd.sc.out), !.pc = "done"] /\ Keep
 Reset == At("done") /\ rd' = Idle /\ Keep
 
 Next ==
@@ -517,7 +624,7 @@ Next ==
   \/ \E so \in 1..(MaxSyms + 1) : Build(so)
   \/ PlaceTables \/ Segments \/ Addresses \/ EncodeArray \/ Encode
   \/ \E v \in {"sec", "seg"} : StartRead(v)
-  \/ ScanTag \/ SelectStrtab \/ ResolveStrings \/ CountSymbols \/ ReadSymbols \/ Reset
+  \/ ScanTag \/ SelectStrtab \/ ResolveStrings \/ CountSymbols \/ ReadSymbols \/ ReadRelocs \/ Reset
 Spec == Init /\ [][Next]_vars
 
 (* ---------------------------- declarative view ------------------------- *)
@@ -530,6 +637,7 @@ TargetOff(x, t) ==
     [] t.k = "in" -> mem.offs[Ix(x).str] + t.a
     [] t.k = "tab" -> CASE t.a = "strtab" -> mem.offs[Ix(x).str] [] t.a = "symtab" -> mem.offs[Ix(x).sym] [] t.a = "hash" -> mem.offs[Ix(x).hash]
                         [] t.a = "gnuhash" -> mem.offs[Ix(x).gnu]
+                        [] t.a \in {"rel", "rela", "relr", "plt"} -> mem.offs[Ix(x)[t.a]]
                         [] t.a = "decoy" -> IF HasDecoy(x) THEN mem.offs[Ix(x).decoy] ELSE mem.offs[Ix(x).str] + 2
 DtByCode == TLCEval([k \in DtKeys |-> RegByCode[k]])
 TagView(x, t) ==
@@ -541,10 +649,24 @@ TagView(x, t) ==
 CountDet(x) == (HasG(x) /\ x.so < mem.n) \/ HasV(x)
 SymView(s) == <<NameSeq[s.nm], StrOffs[s.nm], W(Digits(s.value, Ws(o))), W(Digits(s.size, Ws(o))), s.info, s.other, s.shndx>>
 ViewTags(x) == UpToNull(AllTags(x))
+\* the relocation tables, from the abstract object: rows <<name, is RELA, entries <<r_offset, r_info, symbol, type, r_addend>> (digits)>>
+\* in the order REL, RELA, RELR, JMPREL
+ExpRels ==
+  LET w == Ws(o)
+      Row(e, rela) == <<Digits(e.off, w), DTrunc(InfoDigits(e, o.cls), w), e.sym, e.type, IF rela THEN Digits(e.add, w) ELSE DZero(w)>>
+      Tab(name, kind) == LET es == RelEntries(o, kind)   ra == IsRela(o, kind) IN <<name, ra, [j \in 1..Len(es) |-> Row(es[j], ra)]>>
+      ws == RelrWords(o) IN
+  (IF o.rels.rel THEN <<Tab("REL", "rel")>> ELSE <<>>) \o (IF o.rels.rela THEN <<Tab("RELA", "rela")>> ELSE <<>>)
+  \o (IF o.rels.relr THEN << <<"RELR", FALSE, [j \in 1..Len(ws) |-> <<Digits(ws[j], w), DZero(w), 0, 0, DZero(w)>>]>> >> ELSE <<>>)
+  \o (IF o.rels.plt # "none" THEN <<Tab("JMPREL", "plt")>> ELSE <<>>)
+RelView == LET r == ExpRels IN
+  [i \in 1..Len(r) |-> [name |-> r[i][1], rela |-> r[i][2],
+                        ents |-> [j \in 1..Len(r[i][3]) |-> LET e == r[i][3][j] IN <<W(e[1]), W(e[2]), e[3], e[4], WS(e[5])>>]]]
 DynView == [tags |-> [i \in 1..Len(ViewTags(o)) |-> TagView(o, ViewTags(o)[i])],
          syms |-> [i \in 1..mem.n |-> SymView(mem.tab[i])],
          byname |-> [k \in AllIds |-> {i \in 0..(mem.n - 1) : mem.tab[i + 1].nm = k}],
          count |-> [det |-> CountDet(o), n |-> mem.n],
+         rels |-> RelView,
          \* no DT_RELA / DT_REL / DT_JMPREL / DT_RELR in the array: a reader finds no relocation table
          relfree |-> \A i \in 1..Len(ViewTags(o)) : ViewTags(o)[i].c \notin {C1(7), C1(17), C1(23), C1(36)},
          \* ld-style empty GNU table: the class of objects on which a reader trusting symoffset alone goes wrong
@@ -574,7 +696,8 @@ Tables == [bind |-> BindNames, type |-> TypeNames, shn |-> ShnNames,
            ehdr |-> [c32 |-> EhLayout(32), c64 |-> EhLayout(64), EI_CLASS |-> 4, EI_DATA |-> 5, EI_OSABI |-> 7],
            solaris |-> AllSolarisNames, names |-> NameSeq]
 Brief == [mode |-> o.mode, cls |-> o.cls, le |-> o.le, machine |-> o.machine, osabi |-> o.osabi, layout |-> o.layout, variant |-> o.variant,
-          mpos |-> o.mpos, hk |-> o.hk, nb |-> o.nb, so |-> o.so, ld |-> o.ld, ntags |-> Len(AllTags(o))]
+          mpos |-> o.mpos, hk |-> o.hk, nb |-> o.nb, so |-> o.so, ld |-> o.ld, ntags |-> Len(AllTags(o)),
+          cut |-> o.cut, symlast |-> o.symlast, rels |-> o.rels]
 \* three keyed lines per object (a line must stay below the 8 KB an append writes atomically)
 Key == [b |-> Brief, fid |-> o.fid, tid |-> o.tid, sn |-> [i \in 1..Len(o.syms) |-> o.syms[i].nm]]
 CaseA(a, b) ==
@@ -603,6 +726,19 @@ TagsUpToAndInclNull == \A v \in {"sec", "seg"} : Finished(v) => rd.sc.out = ExpT
 \* both reader views deliver the declarative view: tags, strings, symbols (hence they agree with each other, and - SameData -
 \* the segment view of the stripped encoding is the segment view of the encoding with sections)
 ViewsAgree == \A v \in {"sec", "seg"} : Finished(v) => rd.sc.out = ExpTags /\ rd.strs = ExpStrs /\ rd.syms = ExpSyms
+\* every view reads back exactly the relocation tables of the abstract object - in particular the DT_JMPREL table in the
+\* flavour DT_PLTREL names, whichever other tables exist
+\* (the sweep objects carry the relocation tag codes with dummy values - names are swept there, no table is meant)
+RelocsAgree == \A v \in {"sec", "seg"} : Finished(v) /\ o.mode # "sweep" => rd.rels = ExpRels
+\* mode adj: the first byte of the second PT_LOAD in memory order is the end address of the first one, the two are not
+\* adjacent in the file, and a dynamic pointer addresses that byte (the table `cut`; .dynamic itself is addressed by PT_DYNAMIC)
+AdjBoundary ==
+  Done /\ rd.view = "idle" /\ o.layout \in AdjLayouts =>
+    LET ls == mem.loads
+        A == ls[IF o.layout = "adj" THEN 1 ELSE 3]   B == ls[2]   C == ls[IF o.layout = "adj" THEN 3 ELSE 1] IN
+    /\ B.va = Plus(A.va, A.fsz) /\ B.off # A.off + A.fsz /\ C.off = A.off + A.fsz /\ B.off = C.off + C.fsz
+    /\ B.off = mem.offs[o.cut] /\ PtrToOffset(ls, B.va) = B.off /\ ~InLoad(A, B.va) /\ ~InLoad(C, B.va)
+    /\ (o.cut < Ix(o).dyn => \E i \in 1..Len(ViewTags(o)) : IsPtr(ViewTags(o)[i]) /\ ValDigits(o, mem.P, ViewTags(o)[i]) = B.va)
 \* a count recovered from a hash table is the true count; it is recovered whenever the view says it is determined
 CountExact == /\ (Finished("sec") => rd.cnt = [det |-> TRUE, n |-> mem.n])
               /\ (Finished("seg") => rd.cnt.det = CountDet(o) /\ (rd.cnt.det => rd.cnt.n = mem.n) /\ rd.cnt.n <= mem.n)
